@@ -7,6 +7,8 @@ CONSTANTS
   MCHows = {"commit", "rollback"}
   Plans <- MCPlansLive
   RPlans <- MCRPlans
+  RModes <- MCRModes
+  MCRModeSet = {"latest"}
   InitVid = 2
   Policers = {7}
   PPlans <- MCPPlans
